@@ -349,6 +349,7 @@ func (s *Server) liveSubscription(
 	}()
 
 	msgs := []*Message{msg}
+	var rderr error // a read error to report once the commands read with it are handled
 	for {
 		for _, msg := range msgs {
 			start = time.Now()
@@ -388,13 +389,13 @@ func (s *Server) liveSubscription(
 				writeSubscribe(msg.Command(), channel, len(m[0])+len(m[1]))
 			}
 		}
-		var err error
-		msgs, err = rd.ReadMessages()
-		if err != nil {
-			if err == io.EOF {
+		if rderr != nil {
+			if rderr == io.EOF {
 				return nil
 			}
-			return err
+			return rderr
 		}
+		// (a malformed command may follow valid ones in the same packet)
+		msgs, rderr = rd.ReadMessages()
 	}
 }
